@@ -9,7 +9,12 @@ Byte strings are tokens (`[id]`); the library functions are tables carried by th
                                       kind r|s|d|h|o, rec `-` absent, `!` malformed, else the digest text
   OPS = op;op;…   op = `<l|b>@<0|1>@pkg+pkg…`   pkg = `<hexkey>.<exp>.<fetched>`,
                                       exp `!` undecodable, `~<digest>` bare base64 (no `Q1` prefix), else digest text, fetched `-` or `<sig|->:<ctl>:<dat>`
+  round 2: entry may carry two more fields `.<hexlink>.<hextartarget>`; pkg a fourth field `.<hex checksum string>`
+  (default: the `exp` text); op a fourth field `@f` (fresh process, default) or `@s` (same process as the previous op)
 Requests: `auth.verdict H C D OPS k`  → Impl verdict of op k, Spec verdict, class
+          `auth.installed H C D OPS k` → control checksums that a successful build records (Impl) / the expected ones (Spec)
+          `auth.files   H C D OPS k`  → `<hexname>=<body token>` of every regular file the build lays out: what it serves
+                                      (Impl) / the body its per-file record was checked against (Spec)
           `auth.cache   H C D OPS k`  → advertised cache names after op k (Impl only)
           `auth.class   H C D OPS k`  → `-`, `-`, class (for the byte-level oracle evaluated by the harness)
           `auth.datahash <hex .PKGINFO>` → `(*APK).datahash`
@@ -42,6 +47,8 @@ def parseRec : String → Recorded
 def parseEntry (s : String) : Option Entry :=
   match s.splitOn "." with
   | [n, k, b, r] => some { name := unhexS n, kind := parseKind k, body := tok b, recorded := parseRec r }
+  | [n, k, b, r, l, t] =>
+    some { name := unhexS n, kind := parseKind k, body := tok b, recorded := parseRec r, link := unhexS l, tarTarget := unhexS t }
   | _ => none
 
 def parseD (s : String) : List (Nat × List Entry) :=
@@ -63,43 +70,87 @@ def parseApk (s : String) : Option Apk :=
   | [sg, c, d] => some { sig := if sg = "-" then none else some (tok sg), control := tok c, data := tok d }
   | _ => none
 
+def parseWant (e : String) : Want :=
+  if e = "!" then ⟨none, true⟩
+  else if e.startsWith "~" then ⟨some (e.toList.drop 1), false⟩
+  else ⟨some e.toList, true⟩
+
 def parsePkg (s : String) : Option PkgReq :=
   match s.splitOn "." with
-  | [k, e, f] => some { key := unhexS k,
-                        expected := if e = "!" then ⟨none, true⟩
-                                    else if e.startsWith "~" then ⟨some (e.toList.drop 1), false⟩
-                                    else ⟨some e.toList, true⟩,
-                        fetched := if f = "-" then none else parseApk f }
+  | [k, e, f] => some { key := unhexS k, expected := parseWant e, fetched := if f = "-" then none else parseApk f,
+                        raw := e.toList }
+  | [k, e, f, r] => some { key := unhexS k, expected := parseWant e, fetched := if f = "-" then none else parseApk f,
+                           raw := unhexS r }
   | _ => none
 
 def parseOp (s : String) : Option Op :=
   match s.splitOn "@" with
   | [k, c, ps] => some { kind := if k = "l" then .lock else .build, useCache := c = "1",
                          pkgs := (splitNE ps "+").filterMap parsePkg }
+  | [k, c, ps, f] => some { kind := if k = "l" then .lock else .build, useCache := c = "1",
+                            pkgs := (splitNE ps "+").filterMap parsePkg, fresh := f != "s" }
   | _ => none
 
 def parseOps (s : String) : List Op := (splitNE s ";").filterMap parseOp
 
-/-- store before op `k` and op `k` itself (the model re-runs the prefix: handlers are stateless) -/
-def before (verify : Bool) (L : Lib) (ops : List Op) (k : Nat) : Store × Option Op :=
-  ((runOps verify L [] (ops.take k)).2, ops[k]?)
+/-- state before op `k` and op `k` itself (the model re-runs the prefix: handlers are stateless) -/
+def before (cfg : Cfg) (L : Lib) (ops : List Op) (k : Nat) : State × Option Op :=
+  ((runOps cfg L {} (ops.take k)).2, ops[k]?)
 
 def showB (b : Bool) : String := if b then "ok" else "fail"
 
-/-- Spec verdicts of the packages of one op, threading the store the way Impl does -/
-def specVerdicts (L : Lib) (o : Op) : Store → List PkgReq → List String
+structure PkgView where
+  req : PkgReq
+  out : PkgOut
+  /-- verdict on what Impl expanded / installed for the handle (`Spec.expVerdict`); `-` when Impl failed -/
+  outcome : String
+  /-- an abort of this package is justified: the bytes that the cache directory / the repository offer for the
+  handle are not authentic (`Spec.pkgVerdict`, memo-blind), or the property does not prescribe the verdict
+  (`Spec.dupNames`; an abort of the same URL memoised earlier in this process) -/
+  mayAbort : Bool
+  /-- Impl answered this handle from a memo entry that was made for ANOTHER checksum string -/
+  staleMemo : Bool
+
+/-- per package of one op: Impl's outcome and what the property says about it, threading the state the way Impl does -/
+def views (L : Lib) (o : Op) : State → List PkgReq → List PkgView
   | _, [] => []
   | s, p :: ps =>
-    let cache := if o.useCache then some (s.cacheOf p.key) else none
+    let cache := if o.useCache then some (s.store.cacheOf p.key) else none
     let v := Spec.pkgVerdict L o.kind p cache
-    let s' := (runPkg Impl.verifies L o.kind o.useCache s p).2
-    v :: specVerdicts L o s' ps
+    let m := if o.useCache then lookup p.key s.memo else none
+    let sticky := match m with
+      | some ⟨_, _, .error _⟩ => true
+      | _ => false
+    let stale := match m with
+      | some me => memoAnswers Impl.memoChecks me p && !(decide (me.raw = p.raw) && decide (me.want = p.expected))
+      | none => false
+    let dup := o.kind = .build && Spec.dupNames L p cache
+    let r := runPkg Impl.cfg L o.kind o.useCache s p
+    let outcome := match r.1.ok, r.1.exp with
+      | true, some e => Spec.expVerdict L o.kind p.expected e
+      | _, _ => "-"
+    { req := p, out := r.1, outcome := outcome, mayAbort := (v != "ok" && v != "emptyhash") || sticky || dup,
+      staleMemo := stale } :: views L o r.2 ps
 
 def classOfVerdict : String → String
   | "control" => "F05a"
   | "data" => "F05b"
   | "emptyhash" => "F05c"
   | _ => "unlisted"
+
+def sortS (l : List String) : List String := l.mergeSort (fun a b => decide (a ≤ b))
+
+def dedupS : List String → List String
+  | a :: b :: r => if a = b then dedupS (b :: r) else a :: dedupS (b :: r)
+  | l => l
+
+def tokS (b : Bytes) : String := toString (idOf b)
+
+def fileLines (es : List Entry) (ns : List Node) (spec : Bool) : List String :=
+  (fileNodes ns).map fun nd =>
+    hexS nd.name ++ "=" ++ (if spec then tokS nd.own else match served es nd with
+      | some b => tokS b
+      | none => "!")
 
 def cacheNames (s : Store) : String :=
   let names := s.flatMap fun (k, c) =>
@@ -116,26 +167,41 @@ def handle (args : List String) : Option String :=
       | none => "err"
     some (r ++ "\t" ++ r ++ "\t-")
   | [op, h, c, d, ops, k] =>
-    if op != "auth.verdict" && op != "auth.cache" && op != "auth.class" then none else
+    if !(["auth.verdict", "auth.cache", "auth.class", "auth.installed", "auth.files"].contains op) then none else
     let L := mkLib (parseH h) (parseC c) (parseD d)
     let ops := parseOps ops
-    match before Impl.verifies L ops k.toNat! with
+    match before Impl.cfg L ops k.toNat! with
     | (_, none) => some "bad-op"
     | (s, some o) =>
-      let (ok, s') := runOp Impl.verifies L s o
-      let vs := specVerdicts L o s o.pkgs
-      let bad := vs.filter (· != "ok")
-      -- F05c only when an empty datahash is the only complaint (it must never mask another class)
-      let cls := match bad.filter (· != "emptyhash"), bad with
-        | v :: _, _ => classOfVerdict v
+      let (outs, s') := runOp Impl.cfg L s o
+      let ok := opOk outs
+      let vs := views L o (s.enter o) o.pkgs
+      let anyStale := vs.any (·.staleMemo)
+      let fileLinesOf (sp : Bool) := ",".intercalate (sortS (outs.flatMap fun r => match r.exp with
+        | some e => fileLines e.files r.nodes sp
+        | none => []))
+      -- Impl ok: every package must have been given authentic bytes; Impl fail: some package must justify the abort
+      let bad := if ok then (vs.filter (·.outcome != "ok")).map (fun v => (v.outcome, v.staleMemo)) else []
+      let spec := if ok then bad.isEmpty else vs.any (·.mayAbort) == false
+      -- F05c only when an empty datahash is the only complaint (it must never mask another class);
+      -- F05d when the offending package was answered from a memo entry made for another checksum
+      let cls := match bad.filter (·.1 != "emptyhash"), bad with
+        | (v, stale) :: _, _ => if stale then "F05d" else classOfVerdict v
         | [], _ :: _ => "F05c"
-        | [], [] => "-"
-      let spec := bad.isEmpty
+        | [], [] => if anyStale then "F05d" else if ok && fileLinesOf false != fileLinesOf true then "F05e" else "-"
       if op = "auth.verdict" then
         some (showB ok ++ "\t" ++ showB spec ++ "\t" ++ (if ok = spec then "-" else cls))
       else if op = "auth.cache" then
-        let n := cacheNames s'
+        let n := cacheNames s'.store
         some (n ++ "\t" ++ n ++ "\t-")
+      else if op = "auth.installed" then
+        let impl := ",".intercalate (dedupS (sortS (outs.filterMap fun r => r.exp.map fun e => String.ofList e.controlHash)))
+        let spec := ",".intercalate (dedupS (sortS (o.pkgs.map fun p => String.ofList (p.expected.digest.getD "!".toList))))
+        some (impl ++ "\t" ++ spec ++ "\t" ++ (if impl = spec then "-" else if anyStale then "F05d" else "unlisted"))
+      else if op = "auth.files" then
+        let impl := fileLinesOf false
+        let spec := fileLinesOf true
+        some (impl ++ "\t" ++ spec ++ "\t" ++ (if impl = spec then "-" else "F05e"))
       else
         some ("-\t-\t" ++ cls)
   | _ => none
